@@ -327,6 +327,9 @@ func (in *Interp) syncIntrinsic(name string, args []Value) (Value, bool) {
 		// any stored item may be returned; items may have been dropped (GC); otherwise New
 		k := in.chooseN("pool-get", len(st.items)+1)
 		if k < len(st.items) {
+			// alternatives are ordered most-recently-stored first (what the real
+			// per-P cache usually does, so the first counterexample found replays natively)
+			k = len(st.items) - 1 - k
 			it := st.items[k]
 			st.items = append(append([]Value{}, st.items[:k]...), st.items[k+1:]...)
 			return it, true
@@ -353,6 +356,18 @@ func (in *Interp) syncIntrinsic(name string, args []Value) (Value, bool) {
 		v := Bin("bvadd", in.load(p).(*Term), args[1].(*Term))
 		in.store(p, v)
 		return v, true
+	case "sync/atomic.StoreUint32", "sync/atomic.StoreUint64", "sync/atomic.StoreInt32", "sync/atomic.StoreInt64":
+		in.visible(name)
+		in.store(args[0].(*PtrV), args[1])
+		return nil, true
+	case "sync/atomic.CompareAndSwapUint32", "sync/atomic.CompareAndSwapUint64", "sync/atomic.CompareAndSwapInt32", "sync/atomic.CompareAndSwapInt64":
+		in.visible(name)
+		p := args[0].(*PtrV)
+		if in.branch(Eq(in.load(p).(*Term), args[1].(*Term))) {
+			in.store(p, args[2])
+			return Bool(true), true
+		}
+		return Bool(false), true
 	case "sync/atomic.LoadUint32", "sync/atomic.LoadUint64", "sync/atomic.LoadInt32", "sync/atomic.LoadInt64":
 		in.visible(name)
 		return in.load(args[0].(*PtrV)), true
